@@ -189,7 +189,7 @@ def run_one(i, extra):
     okname = lambda n: n if acceptable(n) else "x1"
     parts = {"arn": "arn", "partition": rng.choice(["aws", "aws-cn", "aws-us-gov"]),
              "service": rng.choice(["states", "rpcmessage", "lambda", "fn", "openfaas"]),
-             "region": rng.choice(["", "local", "eu-west-1"]), "account": rng.choice(["", "0123456789", "123456789012"]),
+             "region": rng.choice(["", "local", "eu-west-1", "cn-north-1", "us-gov-west-1", "ap-southeast-2"]), "account": rng.choice(["", "0123456789", "123456789012"]),
              "resource_type": rng.choice(["function", "stateMachine", "execution", "states", "aws-sdk", "activity", "express"]),
              "resource": rng.choice([okname(smname), okname(smname) + ":" + okname(exname), okname(exname)])}
     built = create_arn(dict(parts))
@@ -265,7 +265,7 @@ def foreign_region(rng, seed, smname, exname, typ, probes):
     MACHINE's ARN, and every derivation leads back to it."""
     findings = []
     transport = rng.choice(["asyncio", "blocking"])
-    region = rng.choice(["eu-west-1", "us-east-1", "other"])
+    region = rng.choice(["eu-west-1", "us-east-1", "other", "cn-north-1", "us-gov-west-1"])
     if not acceptable(smname) or not acceptable(exname):
         smname, exname = "sm-%d" % (seed % 97), "run-%d" % (seed % 89)
     add = _adder(findings, seed, [smname, exname], "foreign-region", typ)
